@@ -39,7 +39,7 @@ def hexDec (s : String) : Option Bytes :=
 
 def fmtTag (t : Tag) : String := s!"T{hexEnc t.name}:{hexEnc t.value}"
 
-def fmtOp : Op → String
+def fmtOp : PTN.Op → String
   | .moveNumber src n => s!"N{n}:{hexEnc src}"
   | .move src m mods => s!"M{fmtMove m}:{hexEnc mods}:{hexEnc src}"
   | .comment src c => s!"C{hexEnc c}:{hexEnc src}"
@@ -53,7 +53,7 @@ def parseTagTok (tok : String) : Option Tag :=
   | [n, v] => do pure ⟨← hexDec n, ← hexDec v⟩
   | _ => none
 
-def parseOpTok (tok : String) : Option Op :=
+def parseOpTok (tok : String) : Option PTN.Op :=
   let body := (tok.drop 1).toString
   match tok.front, body.splitOn ":" with
   | 'N', [n, s] => do pure (.moveNumber (← hexDec s) (← n.toInt?))
